@@ -227,6 +227,66 @@ def strip(nd: tg.Node) -> tg.Node:
     return tg.node(rec(tg._totuple(nd.spec)))
 
 
+# ---- the shipped aliases of pane.types ----------------------------------------------------------------------
+
+ALIASES = {
+    'PositiveInt': (int, lambda v: v > 0), 'NonNegativeInt': (int, lambda v: v >= 0), 'NegativeInt': (int, lambda v: v < 0),
+    'NonPositiveInt': (int, lambda v: v <= 0), 'PositiveFloat': (float, lambda v: v > 0), 'NonNegativeFloat': (float, lambda v: v >= 0),
+    'NegativeFloat': (float, lambda v: v < 0), 'NonPositiveFloat': (float, lambda v: v <= 0), 'FiniteFloat': (float, math.isfinite),
+}
+ALIAS_VALUES = [0, 1, -1, 2, -2, 0.0, -0.0, 1.0, -1.0, 0.5, -0.5, math.nextafter(0.0, 1.0), math.nextafter(0.0, -1.0),
+                float('inf'), float('-inf'), float('nan'), 10**30, -10**30, '1', None, True, [1]]
+
+
+def alias_cases(shard: int, nshards: int) -> t.Iterator[t.Any]:
+    i = 0
+    for name in [*ALIASES, 'ListNotEmpty[int]', 'ListNotEmpty[str]', 'conditions-exported']:
+        for (j, _) in enumerate(ALIAS_VALUES if not name.startswith(('ListNotEmpty', 'conditions')) else [[], [1], ['a'], [1, 2], (), (1,), 'x', None, {}]):
+            if i % nshards == shard:
+                yield [name, j]
+            i += 1
+
+
+def check_alias(case: t.Any, ctx: Ctx) -> None:
+    import pane
+    import pane.types as PT
+    (name, j) = case
+    ctx.label(f"alias:{name.split('[')[0]}")
+    ctx.nontrivial(True)
+    if name == 'conditions-exported':
+        # the stock conditions exported at top level are the ones in pane.annotations
+        import pane.annotations as A
+        for n in ('Positive', 'NonPositive', 'Negative', 'NonNegative', 'Empty', 'NonEmpty', 'val_range', 'len_range', 'Condition'):
+            if getattr(pane, n, None) is not getattr(A, n):
+                ctx.fail('stock-aliases', 'export', f"pane.{n} is not pane.annotations.{n}")
+        return
+    if name.startswith('ListNotEmpty'):
+        elem = int if 'int' in name else str
+        T = PT.ListNotEmpty[elem]
+        v = [[], [1], ['a'], [1, 2], (), (1,), 'x', None, {}][j]
+        want = tg.is_seq(v) and len(v) >= 1 and all(type(x) is elem for x in v)
+    else:
+        (base, pred) = ALIASES[name]
+        T = getattr(PT, name)
+        v = ALIAS_VALUES[j]
+        ok_kind = (type(v) is int) if base is int else (type(v) in (int, float))
+        if type(v) is bool:
+            ctx.exclude('bool given to a numeric target (unspecified)')
+            return
+        try:
+            want = ok_kind and bool(pred(base(v)))
+        except OverflowError:
+            want = False
+    (k, got) = outcome(lambda: pane.from_data(v, T))
+    ctx.evaluated()
+    if k == 'exc' or (k == 'ok') != want:
+        ctx.fail('stock-aliases', name.split('[')[0], f"from_data({v!r}, pane.types.{name}) {'accepted as ' + repr(got) if k == 'ok' else 'refused / raised ' + type(got).__name__}; "
+                 f"the alias's documented predicate says {'accept' if want else 'refuse'}")
+
+
 def suites(tier: str) -> t.List[Suite]:
     big = tier == 'thorough'
-    return [Suite('conditions', check, strategy=cases, examples=10000 if big else 800, budget_s=480 if big else 40, render=render)]
+    return [
+        Suite('conditions', check, strategy=cases, examples=10000 if big else 800, budget_s=480 if big else 40, render=render),
+        Suite('shipped-aliases', check_alias, cases=alias_cases, exhaustive=True, budget_s=60),
+    ]
